@@ -77,6 +77,7 @@ class Reply(SerializableMixin, DictableMixin):
     def __init__(self, code=None, text=None):
         self.code = code
         self.text = text
+        self._multiline_code = None
 
     def parse(self, data):
         for line in data.splitlines(False):
@@ -85,17 +86,30 @@ class Reply(SerializableMixin, DictableMixin):
             if not match:
                 raise ProtocolError('Failed to parse reply.')
 
-            if match.group(1) and match.group(2) == b' ':
-                if self.code is not None:
-                    raise ProtocolError('Reply has more than one final line.')
+            text = match.group(3)
 
-                self.code = int(match.group(1))
+            if self.text is None and match.group(1) \
+                    and match.group(2) == b'-':
+                # A multi-line reply ends at the line that begins with
+                # the same code (RFC 959 section 4.2).
+                self._multiline_code = match.group(1)
+
+            if match.group(1) and match.group(2) == b' ':
+                if self._multiline_code in (None, match.group(1)):
+                    if self.code is not None:
+                        raise ProtocolError(
+                            'Reply has more than one final line.')
+
+                    self.code = int(match.group(1))
+                else:
+                    # An intermediary line that merely begins with a
+                    # number.
+                    text = line
 
             if self.text is None:
-                self.text = match.group(3).decode('utf-8',
-                                                  errors='surrogateescape')
+                self.text = text.decode('utf-8', errors='surrogateescape')
             else:
-                self.text += '\r\n{0}'.format(match.group(3).decode(
+                self.text += '\r\n{0}'.format(text.decode(
                     'utf-8', errors='surrogateescape'))
 
     def to_bytes(self):
